@@ -38,7 +38,7 @@ POOLS = {
     'ties6': [2.0, 2.0, 1.0, 1.0, 2.0, 1.0],
     'tiny': [1e-9, 2.5e-10, 1e-310, 3e-310, 2e-9, 5e-324, 1e-8, 4e-310, 3e-9],
 }
-TRANSFORM_OPS = ('transform2', 'transform_zero', 'norm', 'rank', 'pa')
+TRANSFORM_OPS = ('transform2', 'transform_zero', 'norm', 'rank', 'pa', 'transform2_flag', 'pa_flag')
 TIE_METHODS = ('average', 'min', 'max', 'dense', 'ordinal')
 
 
@@ -118,6 +118,9 @@ FUNCS = {
     'by_id': (lambda v, i, md: v * (2 if str(i).endswith('9') or str(i).endswith('1') else 4),
               lambda v, i, md: [x * (2 if i.endswith('9') or i.endswith('1') else 4) for x in v]),
     'by_md': (lambda v, i, md: v * md['w'], lambda v, i, md: [x * md['w'] for x in v]),
+    # doubles the vector, and on the way reads the table being transformed along the other axis (the library
+    # function is bound to the table inside check)
+    'reads_table': (None, lambda v, i, md: [x * 2 for x in v]),
 }
 ELEMENTWISE = ('tag', 'plus1', 'square')
 
@@ -158,6 +161,10 @@ def check(case, acc, tmp):
             for fname, (lf, mf) in FUNCS.items():
                 t, _ = make(case)
                 seen = []
+                if fname == 'reads_table':
+                    oth = 'sample' if ax == 'observation' else 'observation'
+                    oid = m0.ids(oth)[0]
+                    lf = (lambda v, i, mdd, t=t, oth=oth, oid=oid: (t.data(oid, axis=oth), v * 2)[1])
 
                 def mon(v, i, mdd, lf=lf, seen=seen):
                     seen.append((str(i), sorted(float(x) for x in v), None if mdd is None else dict(mdd)))
